@@ -100,6 +100,10 @@ def run_shard(shard, ctx):
         for ln, pre in ((39, 9000), (4097, 12), (0, 700), (100, 100), (12289, 12290)):
             run_case({"kind": "cli", "len": ln, "pad": 3, "how": "inprocess", "existing": pre}, ctx)
         run_case({"kind": "cli", "len": 39, "pad": 0, "how": "subprocess", "existing": 9000}, ctx)
+        for region in ("ciphertext", "tag"):
+            for ln in (1, 3000):
+                run_case({"kind": "cli", "len": ln, "pad": 3, "how": "inprocess", "tamper": region}, ctx)
+        run_case({"kind": "cli", "len": 3000, "pad": 0, "how": "subprocess", "tamper": "ciphertext"}, ctx)
     elif kind == "keystore":
         for l1, l2, style in itertools.product((1, 16, 33), (1, 16, 40), (0, 1, 2, 3)):
             if (l1 + l2 + style) % 3 == 0 or (l1, l2) == (16, 16):
@@ -396,7 +400,13 @@ def _case_cli(case, ctx):
     data1, data2, kid = B.det("d1", 16), B.det("d2", 16), B.det("kid", 16)
     key = B.derive_key(data1, data2)
     attrs = B.standard_attrs(key, IV)
-    img, _ = B.build(payload, key, IV, attrs, None, case["pad"])
+    img, regions = B.build(payload, key, IV, attrs, None, case["pad"])
+    if case.get("tamper"):
+        # one altered byte (ciphertext / tag) with key and key hash intact: the tool must not report success
+        r0, r1 = regions[case["tamper"]]
+        t = bytearray(img)
+        t[r0 + (r1 - r0) // 2] ^= 0x01
+        img = bytes(t)
     ctx.nontrivial += 1
     with scratch_dir() as d:
         ev, ks, out = os.path.join(d, "local.tgz.ve"), os.path.join(d, "encryption.info"), os.path.join(d, "out.bin")
@@ -418,6 +428,9 @@ def _case_cli(case, ctx):
             except SystemExit as e:
                 rc = e.code
             except Exception as e:
+                if case.get("tamper"):
+                    ctx.outcome("cli")
+                    return
                 ctx.violation(case, {"subject": "envelope.cli", "kind": "exception", "exc": type(e).__name__},
                               {"exception": repr(e)[:300]})
                 return
@@ -431,6 +444,13 @@ def _case_cli(case, ctx):
             rc = p.returncode
         after = sorted(os.listdir(d))
         got = open(out, "rb").read() if os.path.exists(out) else None
+        if case.get("tamper"):
+            if rc in (0, None):
+                ctx.violation(case, {"subject": "envelope.cli", "kind": "tamper-accepted", "region": case["tamper"]},
+                              {"rc": rc, "len_got": None if got is None else len(got), "equal_to_payload": got == payload})
+                return
+            ctx.outcome("cli")
+            return
         if rc not in (0, None) or got != payload or after != sorted(set(before) | {"out.bin"}):
             ctx.violation(case, {"subject": "envelope.cli", "kind": "wrong-output"},
                           {"rc": rc, "len_got": None if got is None else len(got), "len_expected": len(payload), "files": after})
